@@ -1,18 +1,79 @@
-(** C01 - every valid instruction assembles to its exact AVR ISA machine code. *)
-From Coq Require Import List ZArith String.
+(** C01 - every valid instruction assembles to its exact AVR ISA machine code.
+    Property theorems only; proofs are in Proofs/Enc*.v. *)
+From Coq Require Import List ZArith NArith String.
 Import ListNotations.
-Require Import AvraV.Spec.Isa.
+Require Import AvraV.Model.Base AvraV.Model.Ast AvraV.Model.Device AvraV.Model.Eval AvraV.Model.Encode.
+Require Import AvraV.Spec.Isa AvraV.Proofs.EncCheck AvraV.Proofs.EncProofs AvraV.Gen.Devices.
 Local Open Scope string_scope.
 Local Open Scope Z_scope.
 
-(** Non-vacuity / table sanity on documented encodings. *)
+(** For every assembler spelling [s] (every row of the ISA table and every documented alias), on
+    every core it exists on, for every operand tuple [ws] the ISA allows for it ([fits]), at every
+    instruction address [pc], whatever source-level operands [args] denote those values (registers,
+    register aliases, arbitrary expressions - only what the accessors return matters):
+    - the ISA table defines instruction words for the statement,
+    - the encoder emits exactly those words, low byte first, one word or two as the table says,
+    - the independent decoder maps the words back to the statement in canonical spelling.
+    For relative jumps and branches [ws] carries the displacement and the source operand is the
+    target pc + 1 + displacement ([at_pc]). *)
+Theorem C01_encode :
+  forall (c : core) (s : spelling) (fuel : nat) (cx : ctx) (args : list iop) (ws : list warg) (pc : Z),
+  In s spellings -> core_ok c (sp_core s) = true -> is_avr8l (dev cx) = isred c ->
+  fits (sp_ops s) ws = true -> 0 <= pc ->
+  map (view_of fuel cx) args = map wview (at_pc pc (op_of (sp_name s)) ws) ->
+  exists words, expect c (sp_name s) ws = Some words /\
+    process fuel cx (op_of (sp_name s)) args (Z.to_N pc) = Ok (bytes_of words) /\
+    (dec_exempt c (sp_name s) ws = false -> decode c words = canon_norm (sp_name s) ws).
+Proof. exact encode_correct. Qed.
+Check C01_encode :
+  forall (c : core) (s : spelling) (fuel : nat) (cx : ctx) (args : list iop) (ws : list warg) (pc : Z),
+  In s spellings -> core_ok c (sp_core s) = true -> is_avr8l (dev cx) = isred c ->
+  fits (sp_ops s) ws = true -> 0 <= pc ->
+  map (view_of fuel cx) args = map wview (at_pc pc (op_of (sp_name s)) ws) ->
+  exists words, expect c (sp_name s) ws = Some words /\
+    process fuel cx (op_of (sp_name s)) args (Z.to_N pc) = Ok (bytes_of words) /\
+    (dec_exempt c (sp_name s) ws = false -> decode c words = canon_norm (sp_name s) ws).
+Print Assumptions C01_encode.
+
+(** The same at the level of the sweeps: every admitted operand tuple of every spelling passes the
+    executable cross-check (ISA words = model bytes, decoder round trip). *)
+Theorem C01_all_spellings : forall s c ws,
+  In s spellings -> core_ok c (sp_core s) = true -> fits (sp_ops s) ws = true -> ok_at c (sp_name s) ws = true.
+Proof. exact enc_all. Qed.
+Print Assumptions C01_all_spellings.
+
+(** How source operands meet the hypothesis of C01_encode. *)
+Theorem C01_operand_register : forall fuel cx n, view_of fuel cx (OR8 n) = wview (WReg (Z.of_N n)).
+Proof. exact view_reg. Qed.
+Theorem C01_operand_alias : forall fuel cx name n,
+  get_def cx name = Some n -> run fuel cx (EIdent name) = Err None ->
+  view_of fuel cx (OE (EIdent name)) = wview (WReg (Z.of_N n)).
+Proof. exact view_alias. Qed.
+Theorem C01_operand_expression : forall fuel cx e v,
+  run fuel cx e = Ok v -> get_r8 cx (OE e) = Err None -> view_of fuel cx (OE e) = wview (WExp v).
+Proof. exact view_expr. Qed.
+Theorem C01_operand_displacement : forall fuel cx (y : bool) e q,
+  run fuel cx e = Ok q -> view_of fuel cx (OIndex (IPostIncE (if y then RY else RZ) e)) = wview (WIdxQ y q).
+Proof. exact view_disp. Qed.
+Print Assumptions C01_operand_expression.
+
+(** Non-vacuity and table sanity on documented encodings; the number of spellings covered. *)
 Example C01_table_examples :
-  expect Full 0 "add" [WReg 17; WReg 3] = Some [0x0D13] /\
-  expect Full 0 "ldi" [WReg 16; WExp 255] = Some [0xEF0F] /\
-  expect Full 0 "ldd" [WReg 1; WIdxQ true 63] = Some [0xAC1F] /\
-  expect Full 0 "jmp" [WExp 4194303] = Some [0x95FD; 0xFFFF] /\
-  expect Full 0 "bclr" [WExp 3] = Some [0x94B8] /\
-  expect Full 0 "lpm" [] = Some [0x95C8] /\
-  expect Reduced 0 "lds" [WReg 18; WExp 64] = Some [0xA120] /\
-  expect Full 0 "movw" [WReg 17; WReg 18] = None.
+  expect Full "add" [WReg 17; WReg 3] = Some [0x0D13] /\
+  expect Full "ldi" [WReg 16; WExp 255] = Some [0xEF0F] /\
+  expect Full "ldd" [WReg 1; WIdxQ true 63] = Some [0xAC1F] /\
+  expect Full "jmp" [WExp 4194303] = Some [0x95FD; 0xFFFF] /\
+  expect Full "bclr" [WExp 3] = Some [0x94B8] /\
+  expect Full "lpm" [] = Some [0x95C8] /\
+  expect Reduced "lds" [WReg 18; WExp 64] = Some [0xA120] /\
+  expect_at Full 64 "breq" [WExp 2] = Some [0xF209] /\
+  expect Full "movw" [WReg 17; WReg 18] = None /\
+  length spellings = 160%nat.
 Proof. vm_compute. repeat split; reflexivity. Qed.
+Example C01_hypotheses_satisfiable :
+  let s := {| sp_name := "ldi"; sp_core := CAny; sp_ops := [PReg d_ RHigh; PExp K_ KImm8] |} in
+  In s spellings /\ fits (sp_ops s) [WReg 16; WExp (-1)] = true /\
+  map (view_of 5 (ctx_new default_device)) [OR8 16; OE (EUn UMinus (EConst 1))]
+    = map wview (at_pc 7 (op_of "ldi") [WReg 16; WExp (-1)]) /\
+  process 5 (ctx_new default_device) (op_of "ldi") [OR8 16; OE (EUn UMinus (EConst 1))] 7 = Ok [0x0F; 0xEF]%N.
+Proof. vm_compute. repeat split; try reflexivity. repeat (first [left; reflexivity | right]). Qed.
